@@ -40,6 +40,16 @@ def roll {β : Type} : List β → List β
 def columnSums (rows : List (List Int)) (n : Nat) : List Int :=
   rows.foldr (fun r acc => List.zipWith (· + ·) r acc) (List.replicate n 0)
 
+/-- the `points` argument of every `is_inside`: one `(3,)` row or an `(N, 3)` array -/
+inductive Points (α : Type) where
+  | row (p : V3 α)
+  | rows (ps : List (V3 α))
+
+/-- `np.atleast_2d(points)`: a `(3,)` input becomes the single row of a `(1, 3)` array -/
+def atleast2d : Points α → List (V3 α)
+  | .row p => [p]
+  | .rows ps => ps
+
 /-! ### `ConvexPolyhedron.is_inside` -/
 namespace CP
 
@@ -58,6 +68,10 @@ def isInside1 (eqs : List (Plane α)) (p : V3 α) : Bool :=
 def isInside (eqs : List (Plane α)) (pts : List (V3 α)) : List Bool :=
   let distances : List (List α) := pts.map (planeDists eqs)
   distances.map fun row => row.all fun d => decide (d ≤ lit 0)
+
+/-- `is_inside(points)` with the argument conversion of `_point_plane_distances`
+    (`points = np.atleast_2d(points)`): a `(3,)` input gives a `(1,)` result -/
+def isInsideArg (eqs : List (Plane α)) (pts : Points α) : List Bool := isInside eqs (atleast2d pts)
 
 end CP
 
@@ -118,6 +132,40 @@ def isInside (S : List (Tri α)) (pts : List (V3 α)) : List Bool :=
   let chain : List (List Int) := S.map fun t => pts.map fun p => contribution p t
   (columnSums chain pts.length).map fun s => Int.fdiv s 2 != 0
 
+/-- exact coordinate equality of two vertices (`tuple(v)` as a dict key) -/
+def vEqb (u v : V3 α) : Bool := Scalar.eqb u.x v.x && Scalar.eqb u.y v.y && Scalar.eqb u.z v.z
+
+/-- `vertex_to_index = {tuple(v): i for i, v in enumerate(self.vertices)}` then
+    `vertex_to_index[tuple(v)]`: later entries overwrite earlier ones, so the LAST index whose
+    coordinates equal `v`; `none` = `KeyError`.  (`i` = index of the head of the list.) -/
+def vertexIndex : List (V3 α) → V3 α → Nat → Option Nat
+  | [], _, _ => none
+  | u :: us, v, i =>
+    match vertexIndex us v (i + 1) with
+    | some j => some j
+    | none => if vEqb u v then some i else none
+
+/-- `self.vertices[vertex_to_index[tuple(v)]]` -/
+def gatherVertex (V : List (V3 α)) (v : V3 α) : Except String (V3 α) :=
+  match vertexIndex V v 0 with
+  | none => .error "KeyError"
+  | some i => .ok (V.getD i V3.zero)
+
+/-- `triangles = [[vertex_to_index[tuple(v)] for v in triangle] for triangle in
+    self._surface_triangulation()]`, `v0 = self.vertices[triangles[:, 0]]`, … -/
+def gather (V : List (V3 α)) (S : List (Tri α)) : Except String (List (Tri α)) :=
+  S.mapM fun t => do
+    let a ← gatherVertex V t.a
+    let b ← gatherVertex V t.b
+    let c ← gatherVertex V t.c
+    pure (⟨a, b, c⟩ : Tri α)
+
+/-- `Polyhedron.is_inside(points)` with its glue: the polytri triangles are mapped to vertex indices
+    and back to `self.vertices` rows, `points = np.atleast_2d(points)` -/
+def isInsideArg (V : List (V3 α)) (S : List (Tri α)) (pts : Points α) : Except String (List Bool) := do
+  let S' ← gather V S
+  pure (isInside S' (atleast2d pts))
+
 end Poly
 
 /-! ### `Sphere.is_inside`, `Ellipsoid.is_inside` -/
@@ -127,6 +175,9 @@ namespace Sphere
 def isInside1 (r : α) (c p : V3 α) : Bool := decide (V3.norm (p - c) ≤ r)
 
 def isInside (r : α) (c : V3 α) (pts : List (V3 α)) : List Bool := pts.map (isInside1 r c)
+
+/-- `points = np.atleast_2d(points) - self.centroid` -/
+def isInsideArg (r : α) (c : V3 α) (pts : Points α) : List Bool := isInside r c (atleast2d pts)
 
 end Sphere
 
@@ -139,6 +190,9 @@ def isInside1 (a b c : α) (cen p : V3 α) : Bool :=
 
 def isInside (a b c : α) (cen : V3 α) (pts : List (V3 α)) : List Bool :=
   pts.map (isInside1 a b c cen)
+
+def isInsideArg (a b c : α) (cen : V3 α) (pts : Points α) : List Bool :=
+  isInside a b c cen (atleast2d pts)
 
 end Ellipsoid
 
@@ -213,6 +267,11 @@ def isInside (r : α) (eqs : List (Plane α)) (faces : List (List (V3 α)))
         (pts.zip pointFacesToCheck).map fun pc =>
           spheroLoop r pc.1 (pc.2.zip (extruded.zip faces)) false
       pure (List.zipWith (fun a b => a || b) inPolyhedron inSpheroShape)
+
+/-- `points = np.atleast_2d(points)` in front of the batch computation -/
+def isInsideArg (r : α) (eqs : List (Plane α)) (faces : List (List (V3 α)))
+    (prisms : Except String (List (List (Plane α)))) (pts : Points α) : Except String (List Bool) :=
+  isInside r eqs faces prisms (atleast2d pts)
 
 /-- what `is_inside` computes for one point when nothing raises (see `Props/C05.lean`,
     `sphero_batch_eq_map_single`) -/
